@@ -119,11 +119,25 @@ def case_strategy(draw):
             "default": draw(st.sampled_from([1, 2]))}
 
 
+def bswap64(v):
+    return int.from_bytes((v & (2**64 - 1)).to_bytes(8, "little"), "big")
+
+
 def const():
+    # 64 bit constants too, and those around the 32 bit immediate limits both
+    # as written and as they look after a byte-order conversion
+    edge = st.one_of(
+        st.sampled_from([2**31, 2**31 + 1, 2**32 - 1, 2**32, 2**32 + 1,
+                         0xdeadbeef, 2**63 - 1, -2**63, -2**32, -2**31 - 1,
+                         0x123456789abcdef0 - 2**64, 0x0123456789abcdef]),
+        st.integers(2**31, 2**32 - 1), st.integers(-2**63, 2**63 - 1))
     return st.one_of(st.integers(-200, 200),
                      st.sampled_from([0x1234, 0x12345678, -2, 2**31 - 1,
                                       -2**31, 0xff, 0x100, 0xffff]),
-                     st.integers(-2**31, 2**31 - 1))
+                     st.integers(-2**31, 2**31 - 1),
+                     edge,
+                     edge.map(lambda v: (lambda w: w - 2**64
+                                         if w >= 2**63 else w)(bswap64(v))))
 
 
 def strategy(tier):
